@@ -1223,6 +1223,120 @@ fn run_local(c: &mut Ctx, special: &[(i64, u32)]) {
     }
 }
 
+/// `Deserialize for DateTime<Local>` with zones whose offset is NOT a constant of the harness: a real DST
+/// zone (a zoneinfo TZif file and the POSIX rule of the same zone), zones at the last representable offset,
+/// and — F32, repaired by 770977e — `TZ` values stating an offset of 24 hours or more, which must be
+/// treated as unreadable zone data (the answers of the fallback zone), never panic.
+fn run_local_real_zones(c: &mut Ctx) {
+    // (text, offset of America/New_York at that instant: US rule since 2007, second Sunday of March /
+    // first Sunday of November, 02:00 local)
+    const NY: [(&str, i32); 10] = [
+        ("2024-01-15T12:00:00Z", -18_000),
+        ("2024-03-10T06:59:59Z", -18_000),
+        ("2024-03-10T07:00:00Z", -14_400),
+        ("2024-07-01T00:00:00+05:30", -14_400),
+        ("2024-11-03T05:59:59.999999999Z", -14_400),
+        ("2024-11-03T06:00:00Z", -18_000),
+        ("2016-12-31T23:59:60Z", -18_000),
+        ("2037-06-01T12:00:00-07:00", -14_400),
+        ("2010-03-14T02:00:00-05:00", -14_400),
+        ("2010-11-07T01:59:59-04:00", -14_400),
+    ];
+    let texts: Vec<String> = NY.iter().map(|x| x.0.to_string()).chain(
+        ["-262143-01-01T00:00:00Z", "+262142-12-31T23:59:59Z", "+262142-12-31T23:59:60.5Z", "1970-01-01T00:00:00-23:59", "not a date", ""].iter().map(|x| x.to_string())).collect();
+    type R = Result<Result<(NaiveDateTime, i32), ()>, ()>;
+    let old = std::env::var("TZ").ok();
+    let read_all = |tz: &str| -> Vec<R> {
+        std::env::set_var("TZ", tz);
+        let ts = texts.clone();
+        std::thread::spawn(move || {
+            ts.iter()
+                .map(|t| {
+                    let q = serde_json::to_string(t).unwrap();
+                    guard(|| serde_json::from_str::<DateTime<Local>>(&q).map(|x| (x.naive_utc(), x.offset().local_minus_utc())).map_err(|_| ()))
+                })
+                .collect()
+        })
+        .join()
+        .unwrap_or_default()
+    };
+    let shown = |r: &R| match r {
+        Ok(Ok((u, o))) => format!("ok {} {o}", show_ndt(u)),
+        Ok(Err(())) => "err".to_string(),
+        Err(()) => "panic".to_string(),
+    };
+    let fixed_reading = |t: &str| -> Result<Result<NaiveDateTime, ()>, ()> {
+        let q = serde_json::to_string(t).unwrap();
+        guard(|| serde_json::from_str::<DateTime<FixedOffset>>(&q).map(|x| x.naive_utc()).map_err(|_| ()))
+    };
+    let fallback = read_all("/nonexistent/zone/of/c20");
+    let ny_file = "/usr/share/zoneinfo/America/New_York";
+    let mut zones: Vec<(String, u8)> = vec![
+        // kind 1: New York (offsets from the table above); 2: fixed +86399; 3: fixed -86399; 0: must be refused
+        ("EST5EDT,M3.2.0,M11.1.0".into(), 1),
+        ("XXX-23:59:59".into(), 2),
+        ("XXX23:59:59".into(), 3),
+        ("XXX-24".into(), 0),
+        ("XXX24".into(), 0),
+        ("XXX-24:00:01".into(), 0),
+        ("XXX-24:59:59".into(), 0),
+        ("XXX-24:30".into(), 0),
+        ("XXX0YYY-24,M3.2.0,M11.1.0".into(), 0),
+        ("XXX-23YYY,M3.2.0,M11.1.0".into(), 0),
+    ];
+    if std::path::Path::new(ny_file).exists() {
+        zones.push((format!(":{ny_file}"), 1));
+    } else {
+        c.count("local-real:no zoneinfo file for America/New_York");
+    }
+    for (tz, kind) in &zones {
+        let out = read_all(tz);
+        if out.len() != texts.len() {
+            c.fail("DateTime<Local> worker thread died", tz);
+            continue;
+        }
+        for (k, (t, r)) in texts.iter().zip(out.iter()).enumerate() {
+            c.count("call:DateTime<Local>.de(real zone)");
+            if r.is_err() {
+                c.fail("Deserialize for DateTime<Local> panicked (zone from the environment)", &format!("TZ={tz} {t:?}"));
+                continue;
+            }
+            // the instant is the one the text states, whatever the zone
+            let want_inst = fixed_reading(t);
+            let got_inst: Result<Result<NaiveDateTime, ()>, ()> = r.clone().map(|x| x.map(|p| p.0));
+            if got_inst != want_inst {
+                c.fail("DateTime<Local> target is not the DateTime<FixedOffset> reading of the same text", &format!("TZ={tz} {t:?}: {}", shown(r)));
+            }
+            if let Ok(Ok((_, o))) = r {
+                let want_off = match kind {
+                    1 if k < NY.len() => Some(NY[k].1),
+                    2 => Some(86_399),
+                    3 => Some(-86_399),
+                    0 => match fallback.get(k) {
+                        Some(Ok(Ok((_, fo)))) => Some(*fo),
+                        _ => None,
+                    },
+                    _ => None,
+                };
+                if let Some(w) = want_off {
+                    if *o != w {
+                        let what = if *kind == 0 {
+                            "a TZ value stating a UTC offset of 24 hours or more is not treated as unreadable zone data (F32)"
+                        } else {
+                            "DateTime<Local> does not carry the offset the zone prescribes at that instant"
+                        };
+                        c.fail(what, &format!("TZ={tz} {t:?}: {} want offset {w}", shown(r)));
+                    }
+                }
+            }
+        }
+    }
+    match &old {
+        Some(v) => std::env::set_var("TZ", v),
+        None => std::env::remove_var("TZ"),
+    }
+}
+
 fn run_strings(c: &mut Ctx, special: &[(i64, u32)]) {
     let n = c.n(20_000, 200_000);
     // NaiveDate
@@ -1501,4 +1615,5 @@ pub fn run(c: &mut Ctx) {
     // ---- string forms --------------------------------------------------------------------------------
     run_strings(c, &special);
     run_local(c, &special);
+    run_local_real_zones(c);
 }
